@@ -145,7 +145,7 @@ def tcp_round(port, stream, cut, how):
     proto = secsgem.hsms.HsmsProtocol(settings)
     obs = {"cut": cut, "how": how}
 
-    def wait(cond, seconds=5.0):
+    def wait(cond, seconds=20.0):      # generous: several checks may be running at the same time; a pass never waits
         deadline = time.monotonic() + seconds
         while time.monotonic() < deadline:
             if cond():
@@ -154,7 +154,7 @@ def tcp_round(port, stream, cut, how):
         return False
 
     def client():
-        deadline = time.monotonic() + 5
+        deadline = time.monotonic() + 20
         while True:
             try:
                 return socket.create_connection(("127.0.0.1", port), timeout=2)
@@ -163,7 +163,7 @@ def tcp_round(port, stream, cut, how):
                     raise
                 time.sleep(0.02)
 
-    def recv_frames(sock, n, seconds=3.0):
+    def recv_frames(sock, n, seconds=20.0):
         sock.settimeout(seconds)
         data = b""
         try:
@@ -198,7 +198,7 @@ def tcp_round(port, stream, cut, how):
         wait(lambda: len(proto._receive_buffer) == 0, 3.0)
         obs["buffer_after_close"] = len(proto._receive_buffer)
         sock2 = client()
-        obs["reconnected"] = wait(lambda: proto.connection_state.current.value == 2, 10.0)
+        obs["reconnected"] = wait(lambda: proto.connection_state.current.value == 2)
         sock2.sendall(frame_of(1, 0x52))
         got = recv_frames(sock2, 1)
         obs["reselected"] = [(b.header.s_type.value, b.header.system) for b in got] == [(2, 0x52)] and wait(lambda: proto.connection_state.current.value == 3)
@@ -306,6 +306,44 @@ def disable_while_connect_succeeds_round():
     if state.get("listener"):
         state["listener"].close()
     return obs
+
+
+def queue_case(rnd, sizes, packet, writes):
+    """one direct call of HsmsProtocol._process_send_queue (no thread is running): blocks of the given byte sizes are queued, the
+    connection's send_data answers as scripted; returns the Coq literal: packet counts, the answers, how each block ended"""
+    from secsgem.common.block_send_info import BlockSendInfo, BlockSendResult
+    rig = protorig.HsmsRig(active=False, inert=True)
+    try:
+        proto = rig.proto
+        proto.send_packet_size = packet
+        script = list(writes)
+        calls = []
+
+        def scripted(data):
+            calls.append(len(data))
+            return script.pop(0) if script else False
+
+        rig.conn.send_data = scripted
+        infos = [BlockSendInfo(bytes(rnd.randrange(256) for _ in range(n))) for n in sizes]
+        for info in infos:
+            proto._send_queue.put(info)
+        common.with_deadline(proto._process_send_queue, 10.0)
+        results = []
+        for info in infos:
+            results.append("None" if not info._result_trigger.is_set() else ("(Some true)" if info._result == BlockSendResult.SENT_OK else "(Some false)"))
+        counts = [-(-n // packet) for n in sizes]
+    finally:
+        rig.stop()
+    return ("{| q_blocks := [" + ";".join(f"{c}%nat" for c in counts) + "]; q_writes := [" + ";".join("true" if w else "false" for w in writes)
+            + "]; q_results := [" + ";".join(results) + "] |}"), {"sizes": sizes, "packet": packet, "writes": writes, "results": results, "left_in_queue": len(infos) - sum(1 for r in results if r != "None")}
+
+
+def evaluate_queue(lits):
+    header = "From SG Require Import Base.Prelude Run.C09Run.\nOpen Scope nat_scope.\n"
+    outs = common.coq_eval_shards("c09q", header, ["Definition cs : list c09qcase := [\n" + ";\n".join(lits) + "\n].\nEval vm_compute in run_c09q cs.\n"])
+    ok, text = outs[0]
+    parsed = common.parse_triples(text) if ok else None
+    return parsed, text
 
 
 def pending_sends_round(n_senders, cut_stream, cut):
@@ -456,7 +494,7 @@ def run(tier, replay=None):
     if replay:
         print(json.dumps(json.load(open(replay)), indent=1)[:3000])
         return 0
-    proof = common.prove(report, "C09", ["statemachines", "protoconsts"], extra_targets=["Run/C09Run.vo"])
+    proof = common.prove(report, "C09", ["sendqueue", "statemachines", "protoconsts"], extra_targets=["Run/C09Run.vo"])
     ok, log = common.coq_make(["Run/C09Run.vo"])
     if not ok:
         report.violation({"kind": "broken-obligation", "obligation": "Run/C09Run.vo does not build", "detail": log[-1500:], "also": proof.get("broken")}, False, tag="modelbuild")
@@ -514,6 +552,27 @@ def run(tier, replay=None):
     race2_obs = common.guarded(disable_while_connect_succeeds_round, "disable() while the active endpoint's connection attempt succeeds", awedged, 60.0)
     if race2_obs is not None and not (race2_obs["disable_returned"] and race2_obs["not_connected"]):
         report.violation({"kind": "counterexample", "what": "disable() did not return / the endpoint did not end NOT CONNECTED when its connection attempt succeeded while it was being disabled", **race2_obs}, True, tag="disablerace")
+    # _process_send_queue itself against scripted answers of the connection: every queued block is resolved by one run
+    qlits, qraws = [], []
+    for _ in range(60 if tier == "quick" else 600):
+        packet = rnd.choice([1, 3, 7, 16])
+        sizes = [rnd.choice([0, 1, 2, 7, 8, 20, 33]) for _ in range(rnd.randint(1, 6))]
+        total = sum(-(-n // packet) for n in sizes)
+        writes = [rnd.random() < rnd.choice([0.0, 0.5, 0.85, 1.0]) for _ in range(total + rnd.randint(0, 3))]
+        r = common.guarded(lambda sizes=sizes, packet=packet, writes=writes: queue_case(rnd, sizes, packet, writes), f"_process_send_queue: blocks {sizes}, packet size {packet}, answers {writes}", awedged, 30.0)
+        if r is not None:
+            qlits.append(r[0])
+            qraws.append(r[1])
+    qparsed, qtext = evaluate_queue(qlits) if qlits else ((([], 0, 0)), "")
+    queue_model_bad = []
+    if qparsed is None:
+        report.violation({"kind": "broken-correspondence", "obligation": "evaluation of the send-queue cases failed", "detail": qtext[-800:]}, False, tag="queueeval")
+    else:
+        for i, m, sc in qparsed[0]:
+            if sc >= 30:
+                report.violation({"kind": "counterexample", "what": "one run of _process_send_queue left a queued block unresolved although the connection answered every write", **qraws[i]}, True, tag="queue")
+                break
+            queue_model_bad.append((i, m))
     # the same over real sockets (TcpServerConnection on the loopback interface)
     tcp_obs = []
     st = streams(rnd)[0]
@@ -523,7 +582,7 @@ def run(tier, replay=None):
     twedged = []
     for k, cut in enumerate(cuts):
         how = "peer_close" if k % 2 == 0 else "disable"
-        obs = common.guarded(lambda cut=cut, how=how, k=k: tcp_round(common.own_port(k), st, cut, how), f"TCP loopback: stream cut at byte {cut}, ended by {how}", twedged, 60.0)
+        obs = common.guarded(lambda cut=cut, how=how, k=k: tcp_round(common.own_port(k), st, cut, how), f"TCP loopback: stream cut at byte {cut}, ended by {how}", twedged, 200.0)
         if obs is None:
             continue
         tcp_obs.append(obs)
@@ -533,6 +592,9 @@ def run(tier, replay=None):
                               "stream_hex": [f.hex() for f in st], **obs}, True, tag="tcp")
             break
     common.report_wedged(report, twedged, proof)
+    if not report.violations and queue_model_bad:
+        i, m = queue_model_bad[0]
+        report.violation({"kind": "broken-correspondence", "obligation": "Model/SendQueue.v (with Gen/SendQueue.v) no longer behaves like HsmsProtocol._process_send_queue", **qraws[i], "count": len(queue_model_bad)}, False, tag="queuemodel")
     if not report.violations:
         if model_bad:
             i, m, sc = model_bad[0]
@@ -552,6 +614,7 @@ def run(tier, replay=None):
                    "plus an ACTIVE endpoint whose link is lost (own Select.req answered or still open, stream cut at several offsets) and restored at once: new Select.req, SELECTED again; "
                    "plus 1-6 application threads with blocks in the send queue whose writes fail while the peer closes (disconnect handling finishes, every sender returns, queue empty)")
     cov["correspondence"] = {k: v for k, v in stats.items() if k != "eval_errors"}
+    cov["send_queue_cases"] = {"count": len(qlits), "samples": qraws[:3]}
     cov["pending_sends_rounds"] = pending_obs
     cov["active_reconnect_rounds"] = active_obs
     cov["disable_while_peer_connects"] = race_obs
